@@ -380,6 +380,15 @@ func evGenContent(t *rapid.T, version, typ string) jv {
 	if typ == "m.room.member" && rapid.IntRange(0, 2).Draw(t, "tpi") == 0 {
 		c = c.with("third_party_invite", evGenContentValue(t, version, "third_party_invite"))
 	}
+	if names, ok := evRuleContentKeys[typ]; ok && rapid.IntRange(0, 9).Draw(t, "lookAlike") == 0 {
+		// a key that differs from one the rules read for this type only in letter case: Build and the
+		// untrusted parsers must agree about it (both refuse), whatever the state key
+		n := rapid.SampledFrom(names).Draw(t, "lookAlikeOf")
+		k := rapid.SampledFrom([]string{strings.ToUpper(n[:1]) + n[1:], strings.ToUpper(n), n[:len(n)-1] + strings.ToUpper(n[len(n)-1:])}).Draw(t, "lookAlikeKey")
+		if k != n {
+			c = c.with(k, evGenContentValue(t, version, n))
+		}
+	}
 	return c
 }
 
